@@ -3,6 +3,8 @@ import Mathlib.GroupTheory.Perm.Basic
 import Mathlib.Data.Fintype.Perm
 import Mathlib.Data.Fintype.Card
 import Mathlib.Data.List.FinRange
+import Mathlib.Data.List.Permutation
+import Mathlib.Algebra.BigOperators.Group.Finset.Basic
 
 /-!
 Helper lemmas for C14: stability of the two sorts on whole tie classes, and the counting argument
@@ -142,5 +144,299 @@ theorem compose_injective (τ : List Nat) (hnd : τ.Nodup) :
         List.cons.injEq] at h
       have hij : i = j := (List.Nodup.getElem_inj_iff hnd).mp h.1
       rw [hij, ih π'' (fun k hk => hπ k (by simp [hk])) (fun k hk => h' k (by simp [hk])) h.2]
+
+/-! ### all `k!` relative orders of a tie class are induced by `n!/k!` shuffles each (audit B8) -/
+
+/-- two arrangements of the same duplicate-free list differ by a relabelling of the elements that
+    fixes everything outside the list -/
+theorem exists_relabel {α : Type} [DecidableEq α] {o o' : List α} (h : o.Perm o') (hnd : o.Nodup) :
+    ∃ ρ : Perm α, o.map ρ = o' ∧ ∀ x, x ∉ o → ρ x = x := by
+  induction h with
+  | nil => exact ⟨1, rfl, fun _ _ => rfl⟩
+  | cons a _ ih =>
+    obtain ⟨ρ, hρ, hfix⟩ := ih (List.nodup_cons.mp hnd).2
+    refine ⟨ρ, ?_, fun x hx => hfix x (fun h => hx (List.mem_cons_of_mem _ h))⟩
+    simp [hρ, hfix a (List.nodup_cons.mp hnd).1]
+  | swap a b l =>
+    have hb : b ∉ a :: l := (List.nodup_cons.mp hnd).1
+    have ha : a ∉ l := (List.nodup_cons.mp (List.nodup_cons.mp hnd).2).1
+    have hbl : b ∉ l := fun h => hb (List.mem_cons_of_mem _ h)
+    refine ⟨swap a b, ?_, ?_⟩
+    · have : l.map (swap a b) = l := by
+        conv_rhs => rw [← List.map_id l]
+        apply List.map_congr_left
+        intro x hx
+        exact swap_apply_of_ne_of_ne (fun h => ha (h ▸ hx)) (fun h => hbl (h ▸ hx))
+      simp [this]
+    · intro x hx
+      simp only [List.mem_cons, not_or] at hx
+      exact swap_apply_of_ne_of_ne hx.2.1 hx.1
+  | trans h₁ _ ih₁ ih₂ =>
+    obtain ⟨ρ₁, h1, f1⟩ := ih₁ hnd
+    obtain ⟨ρ₂, h2, f2⟩ := ih₂ (h₁.nodup_iff.mp hnd)
+    refine ⟨ρ₂ * ρ₁, ?_, ?_⟩
+    · rw [← h2, ← h1, List.map_map]; rfl
+    · intro x hx
+      simp [f1 x hx, f2 x (fun h => hx (h₁.mem_iff.mpr h))]
+
+/-- the tie class `S` as the list of its positions, in increasing order -/
+def cls (S : Fin n → Bool) : List (Fin n) := (List.finRange n).filter S
+
+theorem cls_nodup (S : Fin n → Bool) : (cls S).Nodup := (List.nodup_finRange n).filter _
+
+theorem mem_cls (S : Fin n → Bool) (x : Fin n) : x ∈ cls S ↔ S x = true := by
+  simp [cls]
+
+theorem map_perm_finRange (σ : Perm (Fin n)) : ((List.finRange n).map σ).Perm (List.finRange n) := by
+  apply (List.perm_ext_iff_of_nodup ?_ (List.nodup_finRange n)).mpr
+  · intro a; simp
+    exact ⟨σ.symm a, by simp⟩
+  · exact (List.nodup_finRange n).map σ.injective
+
+/-- whatever the shuffle, it lists exactly the members of the class, each once -/
+theorem induced_perm_cls (S : Fin n → Bool) (σ : Perm (Fin n)) : (induced S σ).Perm (cls S) :=
+  (map_perm_finRange σ).filter S
+
+theorem card_induced_map (S : Fin n → Bool) (ρ : Perm (Fin n)) (hρ : ∀ x, S (ρ x) = S x)
+    (o : List (Fin n)) :
+    Fintype.card {σ : Perm (Fin n) // induced S σ = o} =
+      Fintype.card {σ : Perm (Fin n) // induced S σ = o.map ρ} := by
+  apply Fintype.card_congr
+  refine
+    { toFun := fun σ => ⟨ρ * σ.1, by rw [induced_mul S ρ σ.1 hρ, σ.2]⟩
+      invFun := fun σ => ⟨ρ⁻¹ * σ.1, ?_⟩
+      left_inv := fun σ => by ext; simp
+      right_inv := fun σ => by ext; simp }
+  have hρ' : ∀ x, S (ρ⁻¹ x) = S x := by
+    intro x
+    have := hρ (ρ⁻¹ x)
+    simp at this
+    exact this.symm
+  rw [induced_mul S ρ⁻¹ σ.1 hρ', σ.2, List.map_map]
+  have : (⇑ρ⁻¹ ∘ ⇑ρ) = id := by funext x; simp
+  rw [this, List.map_id]
+
+/-- transitivity: any two orders of the class are exchanged by a class-preserving relabelling, so
+    they are induced by the same number of shuffles -/
+theorem card_induced_eq (S : Fin n → Bool) (o o' : List (Fin n)) (ho : o.Perm (cls S))
+    (ho' : o'.Perm (cls S)) :
+    Fintype.card {σ : Perm (Fin n) // induced S σ = o} =
+      Fintype.card {σ : Perm (Fin n) // induced S σ = o'} := by
+  have hnd : o.Nodup := ho.nodup_iff.mpr (cls_nodup S)
+  obtain ⟨ρ, hmap, hfix⟩ := exists_relabel (ho.trans ho'.symm) hnd
+  have hρ : ∀ x, S (ρ x) = S x := by
+    intro x
+    by_cases hx : x ∈ o
+    · have h1 : S x = true := (mem_cls S x).mp (ho.mem_iff.mp hx)
+      have h2 : ρ x ∈ o' := hmap ▸ List.mem_map_of_mem hx
+      rw [h1, (mem_cls S _).mp (ho'.mem_iff.mp h2)]
+    · rw [hfix x hx]
+  rw [card_induced_map S ρ hρ o, hmap]
+
+/-- the counting core: (number of shuffles inducing `o`) · k! = n! -/
+theorem card_induced_mul (S : Fin n → Bool) (o : List (Fin n)) (ho : o.Perm (cls S)) :
+    Fintype.card {σ : Perm (Fin n) // induced S σ = o} * (cls S).length.factorial = n.factorial := by
+  classical
+  have key := Finset.card_eq_sum_card_fiberwise (f := induced S)
+    (s := (Finset.univ : Finset (Perm (Fin n)))) (t := (cls S).permutations.toFinset)
+    (fun σ _ => by simp [List.mem_permutations, induced_perm_cls])
+  rw [Finset.sum_const_nat (m := Fintype.card {σ : Perm (Fin n) // induced S σ = o})] at key
+  · rw [List.toFinset_card_of_nodup (List.nodup_permutations _ (cls_nodup S)),
+      List.length_permutations, Finset.card_univ, Fintype.card_perm, Fintype.card_fin] at key
+    rw [key, Nat.mul_comm]
+  · intro b hb
+    rw [List.mem_toFinset, List.mem_permutations] at hb
+    rw [card_induced_eq S o b ho hb, Fintype.card_subtype]
+
+
+theorem card_induced_div (S : Fin n → Bool) (o : List (Fin n)) (ho : o.Perm (cls S)) :
+    Fintype.card {σ : Perm (Fin n) // induced S σ = o} = n.factorial / o.length.factorial := by
+  rw [ho.length_eq]
+  exact (Nat.div_eq_of_eq_mul_left (Nat.factorial_pos _) (card_induced_mul S o ho).symm).symm
+
+/-! ### index lists and permutations -/
+
+theorem permList_injective : Function.Injective (permList (n := n)) := by
+  intro σ σ' h
+  unfold permList at h
+  ext i
+  exact (List.map_inj_left.mp h) i (List.mem_finRange i)
+
+/-- every well-formed recorded shuffle (an index list that is a rearrangement of `range n`) is the
+    index list of a permutation of `Fin n` -/
+theorem exists_permList_eq (π : List Nat) (hπ : π.Perm (List.range n)) :
+    ∃ σ : Perm (Fin n), permList σ = π := by
+  have hlen : π.length = n := by rw [hπ.length_eq, List.length_range]
+  subst hlen
+  have hlt : ∀ i (h : i < π.length), π[i] < π.length :=
+    fun i h => List.mem_range.mp (hπ.subset (List.getElem_mem h))
+  have hnd : π.Nodup := hπ.nodup_iff.mpr List.nodup_range
+  let f : Fin π.length → Fin π.length := fun i => ⟨π[i.val], hlt _ i.isLt⟩
+  have hinj : Function.Injective f := by
+    intro i j hij
+    have h := Fin.mk.inj_iff.mp hij
+    exact Fin.ext ((List.Nodup.getElem_inj_iff hnd).mp h)
+  refine ⟨Equiv.ofBijective f (Finite.injective_iff_bijective.mp hinj), ?_⟩
+  unfold permList
+  apply List.ext_getElem
+  · simp
+  · intro i h1 h2
+    simp [f]
+
+/-! ### from positions to the executed `shuffle` -/
+
+theorem shuffle_map {α β : Type} (f : α → β) (l : List α) (τ : List Nat) :
+    shuffle (l.map f) τ = (shuffle l τ).map f := by
+  unfold shuffle
+  rw [List.map_filterMap]
+  congr 1
+  funext i
+  simp
+
+theorem shuffle_filter_induced {α : Type} (x : List α) (p : α → Bool) (σ : Perm (Fin x.length)) :
+    (shuffle x (permList σ)).filter p = (induced (fun i => p x[i]) σ).map (fun i => x[i]) := by
+  rw [shuffle_permList]
+  unfold induced
+  rw [List.filter_map, List.filter_map, List.map_map]
+  rfl
+
+theorem cls_map_get {α : Type} (x : List α) (p : α → Bool) :
+    (cls (fun i : Fin x.length => p x[i])).map (fun i => x[i]) = x.filter p := by
+  unfold cls
+  have h : x = (List.finRange x.length).map (fun i => x[i]) := by
+    apply List.ext_getElem <;> simp
+  conv_rhs => rw [h, List.filter_map]
+  rfl
+
+theorem map_eq_map_of_injOn {α β : Type} (f : α → β) :
+    ∀ l₁ l₂ : List α, (∀ a ∈ l₁, ∀ b ∈ l₂, f a = f b → a = b) → l₁.map f = l₂.map f → l₁ = l₂ := by
+  intro l₁
+  induction l₁ with
+  | nil => intro l₂ _ h; cases l₂ with
+    | nil => rfl
+    | cons _ _ => simp at h
+  | cons a l₁ ih =>
+    intro l₂ hinj h
+    cases l₂ with
+    | nil => simp at h
+    | cons b l₂ =>
+      simp only [List.map_cons, List.cons.injEq] at h
+      rw [hinj a (by simp) b (by simp) h.1,
+        ih l₂ (fun a' ha' b' hb' => hinj a' (by simp [ha']) b' (by simp [hb'])) h.2]
+
+/-- counting for the executed `shuffle`: every duplicate-free arrangement `r` of the members of a
+    class `p` of the list `x` is what `(shuffle x π).filter p` shows for exactly `n!/k!` of the `n!`
+    shuffles `π` -/
+theorem card_shuffle_filter_mul {α : Type} [DecidableEq α] (x : List α) (p : α → Bool) (r : List α)
+    (hr : r.Perm (x.filter p)) (hnd : r.Nodup) :
+    Fintype.card {σ : Perm (Fin x.length) // (shuffle x (permList σ)).filter p = r} *
+      r.length.factorial = x.length.factorial := by
+  let S : Fin x.length → Bool := fun i => p x[i]
+  let g : Fin x.length → α := fun i => x[i]
+  have hcls : (cls S).map g = x.filter p := cls_map_get x p
+  obtain ⟨τ, hτ, hrτ⟩ := exists_shuffle_of_perm (hcls ▸ hr)
+  rw [shuffle_map] at hrτ
+  rw [List.length_map] at hτ
+  have ho : (shuffle (cls S) τ).Perm (cls S) := shuffle_perm _ τ hτ
+  have hginj : ∀ a ∈ cls S, ∀ b ∈ cls S, g a = g b → a = b := by
+    apply List.inj_on_of_nodup_map
+    rw [hcls]
+    exact hr.nodup_iff.mp hnd
+  have hlen : r.length = (cls S).length := by
+    rw [hrτ, List.length_map, ho.length_eq]
+  rw [hlen, ← card_induced_mul S (shuffle (cls S) τ) ho]
+  congr 1
+  apply Fintype.card_congr
+  apply Equiv.subtypeEquivRight
+  intro σ
+  rw [shuffle_filter_induced, hrτ]
+  constructor
+  · intro h
+    apply map_eq_map_of_injOn g _ _ _ h
+    intro a ha b hb
+    exact hginj a ((induced_perm_cls S σ).mem_iff.mp ha) b (ho.mem_iff.mp hb)
+  · intro h
+    show (induced S σ).map g = _
+    rw [h]
+
+theorem card_shuffle_filter_div {α : Type} [DecidableEq α] (x : List α) (p : α → Bool) (r : List α)
+    (hr : r.Perm (x.filter p)) (hnd : r.Nodup) :
+    Fintype.card {σ : Perm (Fin x.length) // (shuffle x (permList σ)).filter p = r} =
+      x.length.factorial / r.length.factorial :=
+  (Nat.div_eq_of_eq_mul_left (Nat.factorial_pos _) (card_shuffle_filter_mul x p r hr hnd).symm).symm
+
+/-! ### a tied twin pair in the greedy pass -/
+section Twin
+variable {G K : Type} [DecidableEq K]
+
+theorem pass_blocked (st : Strategy G K) (contam : G → Bool) (b : G) :
+    ∀ (l : List G) (seen : List K), (∃ k ∈ st.key b, k ∈ seen) → b ∉ pass st contam seen l := by
+  intro l
+  induction l with
+  | nil => intro _ _; simp [pass]
+  | cons x l ih =>
+    intro seen hb
+    simp only [pass]
+    split
+    · exact ih seen hb
+    · rename_i hc
+      obtain ⟨k, hk, hks⟩ := hb
+      intro hmem
+      rcases List.mem_cons.mp hmem with rfl | hmem
+      · apply hc
+        simp only [Bool.or_eq_true]
+        left
+        simp only [isSeen, List.any_eq_true, decide_eq_true_eq]
+        exact ⟨k, hk, hks⟩
+      · exact ih _ ⟨k, hk, List.mem_append_left _ hks⟩ hmem
+
+/-- two groups `a`, `b` that exclude each other and that no other group of the list interferes with:
+    when `a` stands before `b` in the pass list, `a` is accepted and `b` is not -/
+theorem pass_twin [DecidableEq G] (st : Strategy G K) (contam : G → Bool) (a b : G) (hab : a ≠ b)
+    (hca : contam a = false) (hblock : ∃ k ∈ st.key b, k ∈ st.marks a) :
+    ∀ (l : List G) (seen : List K), (∀ k ∈ seen, k ∉ st.key a) →
+      (∀ x ∈ l, x ≠ a → x ≠ b → ∀ k ∈ st.marks x, k ∉ st.key a) →
+      l.filter (fun x => decide (x = a) || decide (x = b)) = [a, b] →
+      a ∈ pass st contam seen l ∧ b ∉ pass st contam seen l := by
+  intro l
+  induction l with
+  | nil => intro _ _ _ h; simp at h
+  | cons x l ih =>
+    intro seen hseen hfree hf
+    by_cases hxa : x = a
+    · subst hxa
+      have hns : isSeen seen (st.key x) = false := (not_isSeen_iff seen _).mpr (fun k hk hks => hseen k hks hk)
+      simp only [pass, hns, hca, Bool.or_self, Bool.false_eq_true, if_false]
+      refine ⟨List.mem_cons_self, ?_⟩
+      intro hmem
+      rcases List.mem_cons.mp hmem with h | hmem
+      · exact hab h.symm
+      · obtain ⟨k, hk, hkm⟩ := hblock
+        exact pass_blocked st contam b l _ ⟨k, hk, List.mem_append_right _ hkm⟩ hmem
+    · by_cases hxb : x = b
+      · subst hxb
+        simp at hf
+        exact absurd hf.1.symm hab
+      · have hf' : l.filter (fun x => decide (x = a) || decide (x = b)) = [a, b] := by
+          rw [List.filter_cons] at hf
+          simpa [hxa, hxb] using hf
+        have hfree' : ∀ y ∈ l, y ≠ a → y ≠ b → ∀ k ∈ st.marks y, k ∉ st.key a :=
+          fun y hy => hfree y (List.mem_cons_of_mem _ hy)
+        simp only [pass]
+        split
+        · exact ih seen hseen hfree' hf'
+        · have hseen' : ∀ k ∈ seen ++ st.marks x, k ∉ st.key a := by
+            intro k hk
+            rcases List.mem_append.mp hk with h | h
+            · exact hseen k h
+            · exact hfree x List.mem_cons_self hxa hxb k h
+          obtain ⟨h1, h2⟩ := ih _ hseen' hfree' hf'
+          refine ⟨List.mem_cons_of_mem _ h1, ?_⟩
+          intro hmem
+          rcases List.mem_cons.mp hmem with h | hmem
+          · exact hxb h.symm
+          · exact h2 hmem
+
+end Twin
 
 end PgFdr.C14
